@@ -415,11 +415,8 @@ class SelectWith(Statement):
         self._target = target
 
     def write(self, scope) -> TextBlock:
-        if self._default is None:
-            assert len(self._branches) != 0
-            separators = "," * (len(self._branches) - 1) + ";"
-        else:
-            separators = "," * len(self._branches)
+        assert self._default is not None or len(self._branches) != 0
+        separators = "," * len(self._branches)
 
         assert isinstance(self._arg, Value)
 
@@ -444,11 +441,16 @@ class SelectWith(Statement):
                             f"{branch[1].write(scope, self._target.result)} when {branch[0].write(scope, self._arg.result)}{sep}"
                             for branch, sep in zip(self._branches, separators)
                         ],
-                        *[
-                            f"{default.write(scope, self._target.result)} when others;"
-                            for default in [self._default]
-                            if default is not None
-                        ],
+                        (
+                            f"{self._default.write(scope, self._target.result)} when others;"
+                            if self._default is not None
+                            # A selected assignment must cover every value of
+                            # the selector type (including the metavalues of std_logic).
+                            # Without default the target keeps its value, like the
+                            # 'when others => null;' of the case statement
+                            # generated in sequential contexts.
+                            else f"{self._target.write(scope)} when others;"
+                        ),
                     ],
                 ),
             ],
